@@ -60,6 +60,11 @@ DtypeFails(ev, pre) ==
           ELSE UNION { LET v == ev.regs[ev.out[i]] IN
                  IF ev.op \in {"svd", "svd_truncated"} /\ IsVector(v) THEN DtFails(v, {RealOf(dt)}, "C20.dtype.real")
                  ELSE IF ev.op = "eigh" /\ IsVector(v) THEN DtFails(v, {RealOf(dt)}, "C20.dtype.real")
+                 ELSE IF ev.op \in {"norm", "norm_sq", "abs"}
+                 THEN \* real-valued results keep the PRECISION: the real counterpart of the operands' element type
+                      (IF IsArray(v) \/ IsVector(v) THEN DtFails(v, {RealOf(dt)}, "C20.dtype.real_result")
+                       ELSE IF IsScalar(v) /\ v.dt \notin {"pyfloat", "pyint", "pycomplex", "bool", "pybool"} THEN DtFails(v, {RealOf(dt)}, "C20.dtype.real_result")
+                       ELSE {})
                  ELSE IF ev.op \in RealValuedOps THEN {}
                  ELSE IF IsArray(v) \/ IsVector(v) \/ IsDense(v) THEN DtFails(v, {dt}, "C20.dtype")
                  ELSE IF IsScalar(v) /\ v.dt \notin {"pyfloat", "pyint", "pycomplex"} THEN DtFails(v, {dt}, "C20.dtype.scalar")
@@ -385,7 +390,7 @@ SameBlocks(x, y) ==
   /\ \A i \in 1..Len(x.blocks) : HasSector(y, x.blocks[i].s)
         /\ BlockOf(y, x.blocks[i].s).shape = x.blocks[i].shape
         /\ BlockOf(y, x.blocks[i].s).data = x.blocks[i].data
-        /\ BlockOf(y, x.blocks[i].s).dt = x.blocks[i].dt
+        /\ (Cardinality(DtOfArray(x)) = 1 => BlockOf(y, x.blocks[i].s).dt = x.blocks[i].dt)   \* (blocks of mixed types may be promoted to their common type)
   /\ \A j \in 1..Len(y.blocks) : ~HasSector(x, y.blocks[j].s) =>
         \A q \in 1..Len(y.blocks[j].data) : y.blocks[j].data[q] = VZero
 SameValue(x, y) ==
@@ -427,7 +432,12 @@ PseudoFails(ev, pre) ==
        [] ev.args.how = "array_equal" ->
             \* identical arrays up to the order in which blocks / pending signs are stored
             F(/\ IsArray(x) /\ IsArray(y) /\ x.ix = y.ix /\ x.charge = y.charge /\ x.sym = y.sym
-              /\ SeqRange(x.blocks) = SeqRange(y.blocks) /\ Len(x.blocks) = Len(y.blocks)
+              /\ Len(x.blocks) = Len(y.blocks)
+              /\ (IF Cardinality(DtOfArray(x)) <= 1 /\ Cardinality(DtOfArray(y)) <= 1
+                  THEN SeqRange(x.blocks) = SeqRange(y.blocks)
+                  ELSE \* blocks of mixed element types: the types a strategy picks for the results are not pinned down
+                       {[f \in (DOMAIN b) \ {"dt", "h"} |-> b[f]] : b \in SeqRange(x.blocks)}
+                         = {[f \in (DOMAIN b) \ {"dt", "h"} |-> b[f]] : b \in SeqRange(y.blocks)})
               /\ SeqRange(x.phases) = SeqRange(y.phases) /\ Labels(x) = Labels(y), c)
        [] ev.args.how = "blocks" -> IF AllExact(x) /\ AllExact(y) THEN F(SameBlocks(x, y) /\ Labels(x) = Labels(y), c) ELSE {}
        [] ev.args.how = "norm2" ->
